@@ -5,6 +5,7 @@ pid = sys.argv[1]
 base = subprocess.run([sys.executable, '/verif/tools/seedprompt.py', pid], capture_output=True, text=True).stdout
 idx = json.load(open('/verif/seeded/index.json'))
 used = [v['breaks'] for k, v in sorted(idx.items()) if k.startswith(pid + '-')]
-base = base.replace('/m1', '/m3').replace('/m2', '/m4').replace('mN/', 'mN/ (N = 3, 4)').replace('N in {1,2}', 'N in {3,4}')
+A = sys.argv[2] if len(sys.argv) > 2 else '3'; B = sys.argv[3] if len(sys.argv) > 3 else '4'
+base = base.replace('/m1', '/m' + A).replace('/m2', '/m' + B).replace('mN/', 'mN/ (N = %s, %s)' % (A, B)).replace('N in {1,2}', 'N in {%s,%s}' % (A, B))
 extra = "\n\nEarlier rounds already produced the following changes for this property; yours must be DIFFERENT from them in mechanism and location (another function, another clause of the property, another trigger), and should look for corners that a test harness built around the obvious scenarios would not reach:\n" + "\n".join("  - " + u for u in used) + "\n"
 print(base.replace("Your job: produce TWO", extra + "\nYour job: produce TWO"))
